@@ -66,9 +66,12 @@ def make_imputer(strategy, model, storage):
     return MarginalImputer(model, strategy, storage)
 
 
-def check_impute(cfgdesc, imputer, model, log, storage, strategy, subset_names, ckind, n, n_kw=True):
-    """Run one impute call on the real imputer and apply the oracle. Returns rows used (indices)."""
+def check_impute(cfgdesc, imputer, model, log, storage, strategy, subset_names, ckind, n, n_kw=True, sparse=False):
+    """Run one impute call on the real imputer and apply the oracle. Returns rows used (indices).
+    sparse: the instance lacks the first requested feature (it must then come from the background)."""
     x = dict(X)
+    if sparse and subset_names:
+        del x[sorted(subset_names)[0]]
     x_before = dict(x)
     sub = container(ckind, subset_names)
     sub_before = list(sub)
@@ -93,8 +96,8 @@ def check_impute(cfgdesc, imputer, model, log, storage, strategy, subset_names, 
     used = set()
     S = set(subset_names)
     for inp in inputs:
-        if set(inp.keys()) != set(x_before.keys()):
-            bad('input-keys', f"model input {inp} has other features than the instance")
+        if set(inp.keys()) != set(x_before.keys()) | S:
+            bad('input-keys', f"model input {inp} must carry the instance's features and the requested subset {sorted(S)}")
         for name in NAMES:
             if name not in S and not (inp[name] == x_before[name]):
                 bad('outside-subset-changed', f"model input {inp} differs from the instance in {name!r}, which is not "
@@ -185,9 +188,10 @@ def driver_a(cfg):
         imputer = make_imputer(cfg['strategy'], model, storage)
         S = subsets[run.choose(len(subsets), 'subset', None, 0)]
         ck = CONTAINERS[run.choose(len(CONTAINERS), 'container', None, 0)]
+        sparse = bool(S) and bool(run.choose(2, 'sparse-instance', None, 0))
         used = check_impute(desc(cfg), imputer, model, log, storage, cfg['strategy'], S, ck, cfg['n'],
-                            n_kw=(len(S) % 2 == 0))
-        return frozenset(used), (tuple(S), ck)
+                            n_kw=(len(S) % 2 == 0), sparse=sparse)
+        return frozenset(used), (tuple(S), ck, sparse)
     return driver
 
 
